@@ -27,7 +27,7 @@ SPEC = {
              'evaluator with a node/attribute outside the documented language; distinct by string'),
     'exhaustive': {'quick': False, 'thorough': False},
     'required_counters': ['audit_windows', 'call_events_seen', 'subexpression_values_inspected', 'immutability_checks', 'file_context_runs',
-                          'views_context_runs', 'attr_matrix_strings', 'node_class_strings'],
+                          'views_context_runs', 'attr_matrix_strings', 'node_class_strings', 'matched_transaction_immutability_checks'],
     'assumptions': ['Ellipsis, bytes and complex literals are data the user wrote; generator objects are legitimate intermediate values',
                     'RecursionError / MemoryError on pathologically deep input count as rejected',
                     'a marker such as "<class \'" inside a result string is only flagged when it occurs nowhere in the expression text or input data'],
@@ -715,16 +715,23 @@ def run_file_contexts(rec, ep, s, rnd):
     else:
         text = 'field.description = %s\nfield.memo = %s\n[P]\nmatch: contains("NETFLIX")\ncategory: C\ntags: {field.memo}\n\n' % (s, s) + base
     txn, rows = copy.deepcopy(TXN), copy.deepcopy(ROWS)
+    seen = {}
 
     def go():
         eng = parse_merchants(text)
         t = copy.deepcopy(txn)
         if eng.transforms:
             apply_transforms(t, eng.transforms)
+        seen['before'], seen['t'] = copy.deepcopy(t), t      # the transaction as match() receives it (after the user's own transforms)
         res = eng.match(t, data_sources=rows)
         surf = {'tags': sorted(res.tags), 'fields': res.extra_fields, 'desc': t.get('description'), 'f': t.get('field')}
         return surf
     out = plain_outcome(rec, 'rules file ' + slot, s, go, hay(s) + text, ep, final_generator_ok=False, immut=[txn, rows])
+    if 't' in seen:
+        rec.count('matched_transaction_immutability_checks')
+        if not same_data(seen['before'], seen['t']):
+            rec.violation('match-mutates-transaction:' + slot, f'rules file {slot}: {s!r}: MerchantEngine.match changed the transaction it was given: '
+                          f'{core.jsonable(seen["before"])} -> {core.jsonable(seen["t"])}'[:400], {'kind': 's', 'where': 'rules file ' + slot, 's': s})
     rec.count('file_context_runs')
     rec.count('slot:' + slot)
     # views file
